@@ -797,7 +797,7 @@ def conc_oracle(case_text, real_lines):
             ref = {h for (h, _) in last[4].values()}
             had_orphans = any(l.split()[0] == "orphan" for l in case_text.splitlines() if l.split())
             ran_cleanup = any(c[0] == "delorphans" for cs in calls.values() for c in cs)
-            if last[5] != ref and not (had_orphans and not ran_cleanup) and not had_orphans:
+            if (last[5] - sabotaged) != (ref - sabotaged) and not (had_orphans and not ran_cleanup) and not had_orphans:
                 fails.append(("quiescent_exact", f"at quiescence cas/ holds {sorted(last[5])}, referenced {sorted(ref)}"))
     # C05: reads
     def value_sets(k, s0, s1):
@@ -830,7 +830,9 @@ def conc_oracle(case_text, real_lines):
         if c[0] in ("get", "size"):
             s0, s1 = started.get((tid, ci), 0), ended.get((tid, ci), 10**9)
             vals = value_sets(c[1], s0, s1)
-            if res.startswith("err:"):
+            if res.startswith("err:") and res != "err:BlobDataMissing" and c[0] == "get" and any(v and v[0] in sabotaged for v in vals):
+                pass                                   # reading a blob the case itself obstructed
+            elif res.startswith("err:"):
                 fails.append(("read_atomic", f"t{tid} `{' '.join(c)}` (steps {s0}..{s1}) failed: {res}"))
             elif res == "none":
                 if None not in vals:
@@ -860,13 +862,29 @@ def race_oracle(case_text, real_lines):
             res[int(a.split()[1])] = b
     owner_refs = {}            # slot -> True while it holds a reference to the live handle
     owner_proc = None
+    pending = set()            # opens that hold a descriptor of LOCK but have not tried the lock yet
     def live():
         return bool(owner_refs) or owner_proc is not None
     for i, e in enumerate(evs):
         r = res.get(i)
         if r is None:
             fails.append(("exclusive", f"event {i} `{' '.join(e)}` produced no result")); continue
-        if e[0] in ("open", "openstats", "openn"):
+        if e[0] == "openfd":
+            if r != "none":
+                fails.append(("exclusive", f"event {i} `{' '.join(e)}`: the open did not reach its lock attempt: {r}"))
+            else:
+                pending.add(e[1])
+        elif e[0] == "lock":
+            if e[1] in pending:
+                pending.discard(e[1])
+                if live():
+                    if not r.startswith("already"):
+                        fails.append(("exclusive", f"event {i} `{' '.join(e)}`: a live handle exists but the open that was waiting to lock returned `{r}`"))
+                elif r == "opened":
+                    owner_refs[e[1]] = True
+                else:
+                    fails.append(("release", f"event {i} `{' '.join(e)}`: no live handle but the open returned `{r}`"))
+        elif e[0] in ("open", "openstats", "openn"):
             if live():
                 if not r.startswith("already"):
                     fails.append(("exclusive", f"event {i} `{' '.join(e)}`: a live handle exists but the open returned `{r}`"))
